@@ -57,8 +57,13 @@ func (op *FsTxn) dropInodes() {
 
 // An aborted transaction may free an inode, which results in dirty
 // buffers that need to be written to log. So, call commit.
+//
+// A transaction may also have put a block that it allocated in a
+// cached inode without dirtying a buffer (bmap allocates the indirect
+// root and then fails to allocate the leaf); PostAbort frees that
+// block, so the cached inode must go too.
 func (op *FsTxn) Abort() bool {
-	if op.Atxn.Op.NDirty() > 0 {
+	if op.Atxn.Op.NDirty() > 0 || op.Atxn.NAllocated() > 0 {
 		op.dropInodes()
 	}
 	op.releaseInodes()
